@@ -123,8 +123,9 @@ Fixpoint dechunk (fuel : nat) (l : bytes) : dechunked :=
                 | _ => Dechunked [] false false
                 end
               else
+                (* compare in N first: a garbled size line may denote an astronomically large number *)
+                if N.of_nat (length l2) <? n then Dechunked [] false false else
                 let k := N.to_nat n in
-                if (length l2 <? k)%nat then Dechunked [] false false else
                 match skipn k l2 with
                 | 13 :: 10 :: l3 =>
                     match dechunk f l3 with
